@@ -250,6 +250,13 @@ func lessKey(ak int, as string, ai int64, bk int, bs string, bi int64) int {
 	return strings.Compare(as, bs)
 }
 
+// ZeroVal returns the zero value of m's element type (the rewritten range loop declares its value
+// variable with it, once, before the loop).
+func ZeroVal[K comparable, V any](m map[K]V) V {
+	var z V
+	return z
+}
+
 // MapKeys returns the keys of m in the order the installed plan dictates.
 func MapKeys[K comparable, V any](m map[K]V, site int) []K {
 	n := len(m)
